@@ -128,6 +128,10 @@ def corpus():
         cs.append(mk_cv(coords, shape2d, data, weights, ["kfold", 3, False, 0], sc, "moment", "corpus"))
     cs.append(mk_cv(coords, shape2d, data[:1], None, ["kfold", 4, True, 3], None, "trend", "corpus-trend"))
     cs.append(mk_cv(coords, shape2d, data, weights, ["blockkfold", 2, True, 1, [2, 2]], "r2", "moment", "corpus-block"))
+    # an estimator whose `fit` is a forwarding wrapper (no `weights` in its signature): weighted fit on the training rows all the same
+    wfw = [[0.25 + ((5 * k) % 7) * (8.0 if k % 3 == 0 else 0.5) for k in range(len(coords[0]))]]
+    cs.append(mk_cv(coords, shape2d, data[:1], wfw, ["kfold", 3, True, 5], "r2", "trendw", "corpus-forwarding-fit-weights"))
+    cs.append(mk_cv(coords, shape2d, data[:1], wfw, ["shuffle", 2, 0.4, 7], "neg_mean_squared_error", "trendw", "corpus-forwarding-fit-weights"))
     # families exercised on EVERY run: cross-validators whose train and test rows do not cover the dataset
     cs.append(mk_cv(coords, shape2d, data, weights, ["shuffle-partial", 3, 0.25, 5, 0.3], None, "moment", "corpus-partial-shuffle"))
     cs.append(mk_cv(coords, shape2d, data[:1], None, ["timeseries", 4], "neg_mean_squared_error", "trend", "corpus-timeseries"))
@@ -156,7 +160,7 @@ def generate(rng, tier):
         coords, shape2d, data, weights = dataset(rng, maxpts, extra=rng.random() < 0.2)
         npts = len(coords[0])
         if u < 0.12:
-            est = rng.choice(["trend", "trend", "chain", "vector"])
+            est = rng.choice(["trend", "trendw", "chain", "vector"])
             n_ = len(coords[0])
             sh = [2, n_ // 2] if n_ % 2 == 0 else ([3, n_ // 3] if n_ % 3 == 0 else [n_])
             d_, w_ = data, weights
@@ -183,8 +187,8 @@ def generate(rng, tier):
                 spec = ["blockkfold", 2, rng.random() < 0.5, seed, [rng.randint(2, 3), rng.randint(2, 3)]]
             else:
                 spec = ["blockshuffle", rng.randint(1, 3), 0.5, seed, [rng.randint(2, 3), rng.randint(2, 3)]]
-            est = rng.choice(["moment"] * 6 + ["trend", "trend", "chain", "vector"])
-            if est in ("trend", "chain"):
+            est = rng.choice(["moment"] * 6 + ["trend", "trendw", "chain", "vector"])
+            if est in ("trend", "trendw", "chain"):
                 data, weights = data[:1], (weights[:1] if weights else None)
             if est == "vector":
                 if len(data) < 2:
@@ -228,7 +232,17 @@ def _arrays(coords, shape2d, data, weights, key=""):
     return cs, d_arg, w_arg
 
 
+class ForwardingTrend(vd.Trend):
+    """A user's subclass that wraps `fit` (logging, timing, unit conversion ...) and forwards whatever it is given: its signature names no
+    `weights`, the weights still reach Trend.fit."""
+
+    def fit(self, *args, **kwargs):
+        return super().fit(*args, **kwargs)
+
+
 def mk_est(est):
+    if est == "trendw":
+        return ForwardingTrend(1)
     if est == "moment":
         return MomentGridder(tag=2)       # fit lingers 2 ms after writing its state
     if est == "trend":
@@ -240,7 +254,7 @@ def mk_est(est):
     raise ValueError(est)
 
 
-REAL = ("trend", "chain", "vector")
+REAL = ("trend", "trendw", "chain", "vector")
 
 
 def _deep_state(obj, depth=0):
@@ -282,7 +296,7 @@ def impl(case):
                     raise RuntimeError(f"delayed result differs from serial: {r} vs {serial}")
             # lazy scores of a SECOND, different model built before anything is computed, then everything computed in ONE graph:
             # each task must still belong to its own call (no sharing of task names / results across calls)
-            other = {"moment": lambda: MomentGridder(tag=5), "trend": lambda: vd.Trend(2), "chain": lambda: vd.Chain([("t", vd.Trend(2))]),
+            other = {"moment": lambda: MomentGridder(tag=5), "trend": lambda: vd.Trend(2), "trendw": lambda: ForwardingTrend(2), "chain": lambda: vd.Chain([("t", vd.Trend(2))]),
                      "vector": lambda: vd.Vector([vd.Trend(0), vd.Trend(2)])}[est]()
             serial_b = [float(v) for v in vd.cross_val_score(other, cs, d_arg, weights=w_arg, cv=make_cv(cvspec), scoring=scorer_of(scoring))]
             lazy_a = vd.cross_val_score(estimator, cs, d_arg, weights=w_arg, cv=make_cv(cvspec), scoring=scorer_of(scoring), delayed=True)
@@ -295,10 +309,10 @@ def impl(case):
                 raise RuntimeError("estimator (or an estimator nested in it) modified")
             # a hyper-parameter sweep: lazy scores are built for the estimator as it is NOW; the caller then re-configures the same object for
             # the next candidate before anything is computed - the scores still belong to the configuration that was passed in
-            if est in ("trend", "moment") and not prefit:
+            if est in ("trend", "trendw", "moment") and not prefit:
                 lazy_c = vd.cross_val_score(estimator, cs, d_arg, weights=w_arg, cv=make_cv(cvspec), scoring=scorer_of(scoring), delayed=True)
                 saved = estimator.get_params()
-                if est == "trend":
+                if est in ("trend", "trendw"):
                     estimator.set_params(degree=(saved["degree"] + 1) % 3)
                 else:
                     estimator.set_params(tag=saved.get("tag", 0) + 3)
